@@ -183,6 +183,76 @@ fn glob_model(t: &Tree, pat: &str) -> Option<BTreeSet<String>> {
     None
 }
 
+/// lexical resolution of `.`, empty components and `dir/..` against the model tree; None when a component that
+/// is stepped out of with `..` is not an existing directory (what happens then is not settled: the commands
+/// create parents before they look)
+fn resolve(t: &Tree, p: &str) -> Option<String> {
+    let mut parts: Vec<&str> = vec![];
+    for c in p.split('/') {
+        match c {
+            "" | "." => {}
+            ".." => {
+                let cur = parts.join("/");
+                if !matches!(t.get(&cur), Some(Node::Dir)) || parts.len() <= 1 {
+                    return None;
+                }
+                parts.pop();
+            }
+            x => parts.push(x),
+        }
+    }
+    Some(parts.join("/"))
+}
+
+fn paths_of(op: &Op) -> Vec<String> {
+    match op {
+        Op::Write(p, _) | Op::Append(p, _) | Op::Read(p) | Op::Touch(p) | Op::Rm(p, _) | Op::Exists(p) | Op::IsFile(p) | Op::IsDir(p) | Op::Size(p) | Op::Mkdir(p) | Op::Rmdir(p) | Op::ReadBin(p) | Op::WriteBin(p, _) => vec![p.clone()],
+        Op::Cp(a, b) | Op::Mv(a, b) => vec![a.clone(), b.clone()],
+        _ => vec![],
+    }
+}
+
+fn with_paths(op: &Op, ps: &[String]) -> Op {
+    match op {
+        Op::Write(_, x) => Op::Write(ps[0].clone(), x.clone()),
+        Op::Append(_, x) => Op::Append(ps[0].clone(), x.clone()),
+        Op::Read(_) => Op::Read(ps[0].clone()),
+        Op::Touch(_) => Op::Touch(ps[0].clone()),
+        Op::Rm(_, r) => Op::Rm(ps[0].clone(), *r),
+        Op::Exists(_) => Op::Exists(ps[0].clone()),
+        Op::IsFile(_) => Op::IsFile(ps[0].clone()),
+        Op::IsDir(_) => Op::IsDir(ps[0].clone()),
+        Op::Size(_) => Op::Size(ps[0].clone()),
+        Op::Mkdir(_) => Op::Mkdir(ps[0].clone()),
+        Op::Rmdir(_) => Op::Rmdir(ps[0].clone()),
+        Op::ReadBin(_) => Op::ReadBin(ps[0].clone()),
+        Op::WriteBin(_, x) => Op::WriteBin(ps[0].clone(), x.clone()),
+        Op::Cp(_, _) => Op::Cp(ps[0].clone(), ps[1].clone()),
+        Op::Mv(_, _) => Op::Mv(ps[0].clone(), ps[1].clone()),
+        other => other.clone(),
+    }
+}
+
+fn command_of(op: &Op) -> (&'static str, Vec<String>) {
+    match op {
+        Op::Write(p, x) => ("writefile", vec![p.clone(), x.clone()]),
+        Op::Append(p, x) => ("appendfile", vec![p.clone(), x.clone()]),
+        Op::Read(p) => ("readfile", vec![p.clone()]),
+        Op::Touch(p) => ("touch", vec![p.clone()]),
+        Op::Rm(p, r) => ("rm", if *r { vec![s("-r"), p.clone()] } else { vec![p.clone()] }),
+        Op::Exists(p) => ("is_path_exists", vec![p.clone()]),
+        Op::IsFile(p) => ("is_file", vec![p.clone()]),
+        Op::IsDir(p) => ("is_dir", vec![p.clone()]),
+        Op::Size(p) => ("get_file_size", vec![p.clone()]),
+        Op::Mkdir(p) => ("mkdir", vec![p.clone()]),
+        Op::Rmdir(p) => ("rmdir", vec![p.clone()]),
+        Op::ReadBin(p) => ("read_binary_file", vec![p.clone()]),
+        Op::Cp(a, b) => ("cp", vec![a.clone(), b.clone()]),
+        Op::Mv(a, b) => ("mv", vec![a.clone(), b.clone()]),
+        _ => ("noop", vec![]),
+    }
+}
+
 fn set_fsize_limit(limit: Option<u64>) {
     unsafe {
         let v = match limit {
@@ -215,6 +285,38 @@ fn run_case(case: &Case) -> Verdict {
     t.insert(ROOT.to_string(), Node::Dir);
     for (i, op) in case.ops.iter().enumerate() {
         let label = format!("op #{} {:?}", i, op);
+        // path aliases: the model works on the canonical path, the command receives the spelling
+        let spelled = paths_of(op);
+        let mut canonical: Vec<String> = vec![];
+        let mut unresolved = false;
+        for p in &spelled {
+            match resolve(&t, p) {
+                Some(c) => canonical.push(c),
+                None => unresolved = true,
+            }
+        }
+        world.arg_rewrite.clear();
+        if unresolved {
+            // stepping out of something that is not a directory: not settled; no panic, then adopt the disk state
+            let (cmd, args) = command_of(op);
+            world.op(cmd, &args, &Want::Any, &args);
+            sim::with_core(|c| c.probe("unresolvable-path-alias"));
+            t = real_tree();
+            continue;
+        }
+        let aliased = canonical != spelled;
+        let canon_op = with_paths(op, &canonical);
+        let op = if aliased {
+            for (c, sp) in canonical.iter().zip(spelled.iter()) {
+                if c != sp {
+                    world.arg_rewrite.push((c.clone(), sp.clone()));
+                }
+            }
+            sim::with_core(|c| c.probe("path-alias-spelling"));
+            &canon_op
+        } else {
+            op
+        };
         let torn_here = case.torn.filter(|(k, _)| *k == i).map(|(_, l)| l);
         // paths whose state the statement leaves open after this operation (re-read from disk)
         let mut resync: Vec<String> = vec![];
@@ -590,7 +692,8 @@ fn run_case(case: &Case) -> Verdict {
 // ------------------------------------------------------------------ generation
 
 const DIRS: [&str; 6] = ["run", "run/d1", "run/d1/d2", "run/d sp", "run/d\u{e9}", "run/e"];
-const FILES: [&str; 5] = ["f.txt", "g.dat", "h h.txt", "\u{fc}.txt", "k.txt"];
+// (the last three are the names a careless "write to a temporary sibling, then rename" would collide with)
+const FILES: [&str; 8] = ["f.txt", "g.dat", "h h.txt", "\u{fc}.txt", "k.txt", "f.txt.tmp", "f.txt~", ".f.txt.swp"];
 const TEXTS: [&str; 8] = ["", "hello", "two\nlines\n", "h\u{e9}llo \u{6f22}", "0123456789abcdefghijklmnopqrstuvwxyz", " ", "x", "line\r\n"];
 
 fn gen_dir(rng: &mut Rng) -> String {
@@ -610,8 +713,38 @@ fn gen_any(rng: &mut Rng) -> String {
     }
 }
 
+fn alias_of(rng: &mut Rng, p: &str) -> String {
+    // an equivalent spelling of the same path
+    let comps: Vec<&str> = p.split('/').collect();
+    if comps.len() < 2 {
+        return p.to_string();
+    }
+    let at = 1 + rng.usize(comps.len() - 1);
+    let insert = match rng.below(4) {
+        0 => ".".to_string(),
+        1 => "".to_string(),
+        _ => format!("{}/..", rng.pick(&["d1", "e", "d sp", "nodir"])),
+    };
+    let mut v: Vec<String> = comps.iter().map(|c| c.to_string()).collect();
+    v.insert(at, insert);
+    v.join("/")
+}
+
 fn gen_op(rng: &mut Rng) -> Op {
     let op = gen_op_raw(rng);
+    let op = if rng.chance(1, 10) {
+        let ps = paths_of(&op);
+        if ps.is_empty() {
+            op
+        } else {
+            let k = rng.usize(ps.len());
+            let mut ps2 = ps.clone();
+            ps2[k] = alias_of(rng, &ps[k]);
+            with_paths(&op, &ps2)
+        }
+    } else {
+        op
+    };
     match &op {
         // a directory copied or moved into itself (or the run directory as a source) is pathological and outside
         // the statement's domain twice over (directory sources): not generated
